@@ -2,7 +2,7 @@
    Statements only.  Generic over every field (Coq's field_theory), instantiated at the reals. *)
 From Coq Require Import List Arith Field_theory Reals RealField.
 Import ListNotations.
-From Flodym Require Import Base.ND Model.Stocks Proofs.StockAlgebra Proofs.StockModel Proofs.StockRoundtrip.
+From Flodym Require Import Base.ND Model.Stocks Proofs.StockAlgebra Proofs.StockModel Proofs.StockRoundtrip Proofs.C03More.
 
 Section G.
 Variable F : Type.
@@ -40,6 +40,21 @@ Theorem C03_balance_flow_driven :
   let s := simple_stock F fO fadd fmul fsub dt inflow outflow in
   fsub (nthF s t) (if Nat.eqb t 0 then fO else nthF s (t - 1)) = fmul (nthF dt t) (fsub (nthF inflow t) (nthF outflow t)).
 Proof. exact (balance_simple F fO fI fadd fmul fsub fopp fdiv finv Fth). Qed.
+(* hence the stock is the cumulated net inflow: sum over the steps up to t of dt * (inflow - outflow) *)
+Theorem C03_stock_is_cumulated_net_inflow :
+  forall (n : nat) (dt inflow : list F) (sf : list (list F)),
+  length dt = n -> length inflow = n -> (forall t c, t < c -> nth2 sf t c = fO) -> (forall t, t < n -> nthF dt t <> fO) ->
+  forall t, t < n ->
+  let r := idsm F fO fI fadd fmul fsub fdiv true n dt inflow sf in
+  nthF (o_stock F r) t = ssum F fO fadd (S t) (fun tau => fmul (nthF dt tau) (fsub (nthF inflow tau) (nthF (o_outflow F r) tau))).
+Proof. intros; eapply idsm_stock_is_cumulated_net_inflow; eauto. Qed.
+
+(* and for anything that satisfies the step balance with stock(-1) = 0 (flow-driven and stock-driven models alike) *)
+Theorem C03_step_balance_telescopes :
+  forall (s d : nat -> F) n,
+  (forall t, t < n -> fsub (s t) (if Nat.eqb t 0 then fO else s (t - 1)) = d t) ->
+  forall t, t < n -> s t = ssum F fO fadd (S t) d.
+Proof. exact (telescoping F fO fI fadd fmul fsub fopp fdiv finv Fth). Qed.
 End G.
 Print Assumptions C03_balance_inflow_driven.
 Print Assumptions C03_balance_stock_driven.
@@ -55,3 +70,6 @@ Theorem C03_balance_inflow_driven_reals :
    = nthF R 0%R dt t * (nthF R 0%R inflow t - nthF R 0%R (o_outflow R r) t))%R.
 Proof. exact (C03_balance_inflow_driven R 0%R 1%R Rplus Rmult Rminus Ropp Rdiv Rinv Rfield). Qed.
 Print Assumptions C03_balance_inflow_driven_reals.
+
+Print Assumptions C03_stock_is_cumulated_net_inflow.
+Print Assumptions C03_step_balance_telescopes.
